@@ -1,8 +1,9 @@
 (* C07 - Declarations: invalid ones vanish, shorthands equal longhands, units agree, var() is substitution.
    Property theorems only (models: model/C07*.v, proofs: proofs/C07_*.v). *)
 From Coq Require Import ZArith QArith List Bool String Permutation.
-Require Import WV.model.C07Tok WV.model.C07Decl WV.model.C07Expand WV.model.C07Full WV.model.C07Var WV.model.C07Units.
-Require Import WV.proofs.C07_decl WV.proofs.C07_expand WV.proofs.C07_full WV.proofs.C07_units WV.proofs.C07_var.
+Require Import WV.model.C07Tok WV.model.C07Decl WV.model.C07Expand WV.model.C07Full WV.model.C07Var WV.model.C07Units
+  WV.model.C07Pending.
+Require Import WV.proofs.C07_decl WV.proofs.C07_expand WV.proofs.C07_full WV.proofs.C07_units WV.proofs.C07_var WV.proofs.C07_pending.
 Require Import WV.gen.GenCssUtils WV.proofs.C07_gen_units.
 Import ListNotations.
 Open Scope string_scope.
@@ -305,3 +306,73 @@ Theorem C07_var_refuted :
   (impl_key "--a-b" = impl_key "--a_b" /\ "--a-b" <> "--a_b").
 Proof. exact var_refuted. Qed.
 Print Assumptions C07_var_refuted.
+
+(* ---- 6. the Pending object of a declaration with var() (css/utils.py Pending.solve) is ONE object for every
+   element the rule matches and every longhand of a shorthand.  run reported calls = the calls it receives in
+   order, each (no tokens?, what validate() does on the substituted tokens), with its flag made explicit;
+   alone c = what call c gives on an object of its own. ---- *)
+Theorem C07_pending_history_independent V reported reported' before before' c after after' :
+  nth (List.length before) (map fst (run V reported (before ++ c :: after))) Crash =
+  nth (List.length before') (map fst (run V reported' (before' ++ c :: after'))) Crash.
+Proof. exact (history_independent V reported reported' before before' c after after'). Qed.
+Print Assumptions C07_pending_history_independent.
+
+Theorem C07_pending_results_are_pointwise V reported calls :
+  map fst (run V reported calls) = map (alone V) calls.
+Proof. exact (results_are_pointwise V reported calls). Qed.
+Print Assumptions C07_pending_results_are_pointwise.
+
+(* one rule, several elements, any order of computation: the computed value of element e's longhand k is the
+   value the declaration validates to with e's custom properties substituted, or - invalid at computed-value
+   time - unset for that element only *)
+Theorem C07_shared_rule_is_per_element V (E T : Type) (validate : T -> string -> res V) (solved : E -> T)
+        (is_empty : T -> bool) (order : list (E * string)) reported :
+  map (fun rl => computed_of V (fst rl))
+      (run V reported (map (fun ek => (is_empty (solved (fst ek)), validate (solved (fst ek)) (snd ek))) order)) =
+  map (fun ek => computed_of V (if is_empty (solved (fst ek)) then Invalid
+                                else validate (solved (fst ek)) (snd ek))) order.
+Proof. exact (shared_rule_is_per_element V E T validate solved is_empty order reported). Qed.
+Print Assumptions C07_shared_rule_is_per_element.
+
+(* the only thing the history decides is the warning: at most one per declaration, at the first failing call *)
+Theorem C07_pending_warns_once V reported calls :
+  (List.length (filter (fun rl => snd rl) (run V reported calls)) <= 1)%nat.
+Proof. exact (warned_at_most_once V reported calls). Qed.
+Print Assumptions C07_pending_warns_once.
+
+Theorem C07_pending_warns_at_first_failure V before c after :
+  Forall (fun x => fails V x = false) before -> fails V c = true ->
+  map snd (run V false (before ++ c :: after)) =
+  (map (fun _ => false) before ++ true :: map (fun _ => false) after)%list.
+Proof. exact (warned_at_first_failure V before c after). Qed.
+Print Assumptions C07_pending_warns_at_first_failure.
+
+(* the generator that PendingExpander.validate consumes lazily, once consumed entirely, is the eager expander of
+   section 3 *)
+Theorem C07_four_sides_generator_agrees V0 known supported prop_validator tokens name :
+  expand_four_sides V0 known supported prop_validator tokens name =
+  gen_result (four_sides_gen V0 known supported prop_validator tokens name).
+Proof. exact (four_sides_gen_agrees V0 known supported prop_validator tokens name). Qed.
+Print Assumptions C07_four_sides_generator_agrees.
+
+(* refuted (finding F161): consumed lazily, a shorthand that is invalid as a whole after substitution still gives
+   the longhands yielded before the invalid component their values - padding: 2px var(--p) with --p: solid *)
+Theorem C07_pending_shorthand_all_or_nothing_refuted :
+  let pv := fun (n : string) (ts : list tok) => match ts with [TAtom k] => Some k | _ => None end in
+  let tokens := [TAtom 2; TIdent "solid" "solid"] in
+  let g := four_sides_gen Z (fun _ => true) (fun _ => true) pv tokens "padding" in
+  expand_four_sides Z (fun _ => true) (fun _ => true) pv tokens "padding" = Invalid /\
+  expander_validate (value Z) "padding" g "padding-top" = Ok (VVal 2%Z) /\
+  expander_validate (value Z) "padding" g "padding-right" = Invalid /\
+  all_or_nothing "padding" g ["padding-top"; "padding-right"; "padding-bottom"; "padding-left"] = false.
+Proof. exact pending_shorthand_applies_partially. Qed.
+Print Assumptions C07_pending_shorthand_all_or_nothing_refuted.
+
+(* refuted (finding var:undefined-dropped): var() of an undefined property without fallback does not invalidate the
+   declaration, it is erased from it *)
+Theorem C07_undefined_var_is_erased :
+  let env := fun _ : string => @nil tok in
+  solved_tokens env 2 [VAR "--p" []; TWs; TAtom 2] = Some (RToks [TWs; TAtom 2]) /\
+  solved_tokens env 2 [VAR "--p" []] = Some (RToks []).
+Proof. exact undefined_var_is_erased. Qed.
+Print Assumptions C07_undefined_var_is_erased.
